@@ -5,4 +5,5 @@ cd "$(dirname "$0")"
 export GOFLAGS=-mod=mod GOPROXY=off GOSUMDB=off GOTOOLCHAIN=local
 mkdir -p bin evidence .work replays
 (cd engine && go build -o ../bin/govc .)
+(cd trusted/audit && cp /repo/go.sum . 2>/dev/null; go build -o ../../bin/astaudit .)
 echo "setup ok"
